@@ -5,7 +5,8 @@ import logging
 
 from common import Failure, Outcome, Broken
 from gen import pick
-from sched.scheduler import Scheduler, SchedLock, SharedDict, Stuck
+import itertools
+from sched.scheduler import Scheduler, SchedLock, SharedDict, Stuck, instrument_locks, _REAL_LOCK, _REAL_RLOCK
 from vakt.storage.memory import MemoryStorage
 from vakt.policy import Policy
 from vakt.guard import Guard, Inquiry
@@ -33,31 +34,106 @@ def pol(uid, effect='allow', subj='max'):
 
 
 class World:
-    """an instrumented MemoryStorage under a scheduler"""
+    """a MemoryStorage under a scheduler.  Where the storage keeps its policies in a plain dict attribute and a
+    threading lock (the shipped layout) both are replaced by instrumented stand-ins, which gives yield points at every
+    dict access; any other layout is run as it is (yield points at its locks and, in line mode, at every source line /
+    bytecode).  Linearizability is judged on call intervals, independent of the instrumentation: every mutation call is
+    wrapped and stamped with a logical clock at its start and at its return."""
     def __init__(self, sched, initial):
         self.sched = sched
         self.log = []
-        self.versions = []
+        self.fine = []               # dict-level versions (instrumented layout only; used by the trace replay)
         self.st = MemoryStorage()
-        d = SharedDict(sched, self.log, self.versions)
-        for p in initial:
-            dict.__setitem__(d, p.uid, p)
-        self.versions.append(dict(dict.items(d)))
-        self.st.policies = d
-        self.st.lock = SchedLock(sched, self.log)
+        pol = getattr(self.st, 'policies', None)
+        if type(pol) is dict:
+            d = SharedDict(sched, self.log, self.fine)
+            for p in initial:
+                dict.__setitem__(d, p.uid, p)
+            self.fine.append(dict(dict.items(d)))
+            self.st.policies = d
+        else:
+            for p in initial:
+                self.st.add(p)
+        lk = getattr(self.st, 'lock', None)
+        if isinstance(lk, (_REAL_LOCK, _REAL_RLOCK)):
+            self.st.lock = SchedLock(sched, self.log, reentrant=isinstance(lk, _REAL_RLOCK))
+        instrument_locks(sched, [self.st], self.log)
+        self.initial = {p.uid: p for p in initial}
+        self.clock = 0
+        self.mutations = []          # [start, end, name, arg]
+        for name in ('add', 'update', 'delete'):
+            self._wrap(name)
+
+    def _wrap(self, name):
+        orig = getattr(self.st, name)
+
+        def wrapped(arg, _orig=orig, _name=name):
+            self.clock += 1
+            rec = [self.clock, None, _name, arg]
+            self.mutations.append(rec)
+            try:
+                return _orig(arg)
+            finally:
+                self.clock += 1
+                rec[1] = self.clock
+        setattr(self.st, name, wrapped)
+
+    def tick(self):
+        self.clock += 1
+        return self.clock
+
+    def snapshot(self):
+        pol = getattr(self.st, 'policies', None)
+        if isinstance(pol, dict):
+            return dict(dict.items(pol))
+        return {p.uid: p for p in self.st.retrieve_all()}
+
+    @staticmethod
+    def _apply(state, m):
+        _, _, name, arg = m
+        s = dict(state)
+        if name == 'add':
+            if arg.uid not in s:
+                s[arg.uid] = arg
+        elif name == 'update':
+            if arg.uid in s:
+                s[arg.uid] = arg
+        else:
+            s.pop(arg, None)
+        return s
+
+    def states_between(self, ds, de):
+        """every policy set some linearization of the mutation calls puts between the two instants: the calls that
+        had returned before `ds` are applied (in any order), those overlapping [ds, de] in any order, any prefix"""
+        INF = float('inf')
+        done = [m for m in self.mutations if (m[1] or INF) < ds]
+        over = [m for m in self.mutations if not ((m[1] or INF) < ds) and m[0] < de]
+        out = []
+        for dperm in itertools.permutations(done):
+            base = dict(self.initial)
+            for m in dperm:
+                base = self._apply(base, m)
+            for r in range(len(over) + 1):
+                for seq in itertools.permutations(over, r):
+                    st = base
+                    for m in seq:
+                        st = self._apply(st, m)
+                    if st not in out:
+                        out.append(st)
+        return out
 
     def decide_on(self, version):
         ms = MemoryStorage()
         for p in version.values():
-            ms.policies[p.uid] = p
+            ms.add(copy.copy(p))
         return Guard(ms, RegexChecker()).is_allowed(Q)
 
 
 def decision_body(world, guard, marks, name):
     def body():
-        marks[name + ':start'] = len(world.versions) - 1
+        marks[name + ':start'] = world.tick()
         r = guard.is_allowed(Q)
-        marks[name + ':end'] = len(world.versions) - 1
+        marks[name + ':end'] = world.tick()
         return r
     return body
 
@@ -139,11 +215,16 @@ def run_one(name, initial, make, preemptions, line_mode=False, random_switch=Non
     made = make(w)
     bodies, kinds, marks = made[0], made[1], made[2]
     cached_guard = made[3] if len(made) > 3 else None
+    if cached_guard is not None:
+        instrument_locks(sched, [cached_guard], w.log)       # a cache back-end may bring its own lock
     results = sched.run(bodies)
     problems = []
     for i, (r, k) in enumerate(zip(results, kinds)):
         if r[0] == 'sched':
-            raise Broken('scheduler trouble in %s: %s' % (name, r[1]))
+            if 'Deadlock' in r[1]:
+                problems.append('thread %d (%s): every thread is blocked on a lock (deadlock)' % (i, k))
+                continue
+            raise Stuck('scheduler trouble in %s: %s' % (name, r[1]))
         if r[0] == 'raise':
             if k == 'add' and r[1] == 'PolicyExistsError':
                 continue
@@ -156,17 +237,20 @@ def run_one(name, initial, make, preemptions, line_mode=False, random_switch=Non
         if k == 'decision' and results[i][0] == 'ok':
             a = results[i][1]
             s, e = marks.get('d%d:start' % i), marks.get('d%d:end' % i)
-            allowed = [w.decide_on(w.versions[j]) for j in range(s, e + 1)]
+            allowed = [w.decide_on(v) for v in w.states_between(s, e)]
             if a not in allowed:
                 problems.append('decision %d answered %r; the policy sets between its start and end give %r'
                                 % (i, a, allowed))
     if cached_guard is not None and not problems:
         later = cached_guard.is_allowed(Q)
-        want = w.decide_on(w.versions[-1])
+        want = w.decide_on(w.snapshot())
         if later is not want:
             problems.append('after the mutation returned, a later inquiry on the cached guard answers %r; the current '
                             'policy set gives %r (served from a decision computed against the older set)' % (later, want))
     return results, sched, w, problems
+
+
+UNSCHEDULABLE = []
 
 
 def enumerate_schedules(name, initial, make, bound, limit, line_mode=False):
@@ -179,7 +263,13 @@ def enumerate_schedules(name, initial, make, bound, limit, line_mode=False):
         if pre in seen:
             continue
         seen.add(pre)
-        results, sched, w, problems = run_one(name, initial, make, dict(pre), line_mode=line_mode)
+        try:
+            results, sched, w, problems = run_one(name, initial, make, dict(pre), line_mode=line_mode)
+        except Stuck:
+            # a lock the scheduler cannot see (C code, a lock created where instrumentation does not reach) was held by
+            # the preempted thread: this schedule cannot be run cooperatively; it is skipped and counted
+            UNSCHEDULABLE.append((name, pre))
+            continue
         out.append((pre, results, sched, w, problems))
         if len(pre) >= bound:
             continue
@@ -219,6 +309,7 @@ def model_line(name, w, kinds):
 
 
 def run(ctx):
+    del UNSCHEDULABLE[:]
     out = Outcome()
     rng = ctx.rng
     bound = 2 if ctx.tier == 'quick' else 3
@@ -265,7 +356,8 @@ def run(ctx):
                 results, sched, w, problems = run_one(name, initial, make, {0: rng.randrange(2)}, line_mode=True,
                                                       random_switch=(rng, pick(rng, [0.02, 0.05, 0.2])))
             except Stuck as e:
-                raise Broken('scheduler stuck: %s' % e)
+                UNSCHEDULABLE.append((name, 'random'))
+                continue
             out.evaluations += 1
             out.count('random-line-granularity')
             out.count('yield-points', sched.step)
@@ -279,6 +371,11 @@ def run(ctx):
             out.nontriv('rand %s %d' % (name, sched.step))
     except Stuck as e:
         raise Broken('scheduler stuck: %s' % e)
+    if UNSCHEDULABLE:
+        out.count('unschedulable', len(UNSCHEDULABLE))
+        if len(UNSCHEDULABLE) > max(20, out.evaluations // 4):
+            raise Broken('%d of %d schedules could not be run cooperatively (first: %r)'
+                         % (len(UNSCHEDULABLE), out.evaluations + len(UNSCHEDULABLE), UNSCHEDULABLE[0]))
     model = ctx.driver.run(lines) if ctx.driver else []
     for line, (desc, results), m in zip(lines, meta, model):
         if m == 'bad-op':
